@@ -2170,7 +2170,10 @@ public:
         if (is_event_handling_blocked_helper<Event>
                 ( ::boost::mpl::bool_<has_fsm_blocking_states<library_sm>::type::value>() ) )
         {
-            return HANDLED_TRUE;
+            // a blocked machine swallows the event. A completion event forwarded by the enclosing
+            // machine is not reported as handled, otherwise the enclosing machine would look for
+            // further completion transitions for ever.
+            return is_completion_event<Event>::type::value ? HANDLED_FALSE : HANDLED_TRUE;
         }
 
         // if a message queue is needed and processing is on the way
